@@ -7,6 +7,7 @@
   the statement of C01 for one value.
 -/
 import Proofs.WFOps
+import Proofs.Foliate
 
 namespace DV.C01
 open DV
@@ -53,6 +54,15 @@ theorem slice_rev_wf (d d' : Diagram) (s t : Option Int) (hd : d.WF) (h : d.slic
 theorem interchange_wf (d d' : Diagram) (i j : Int) (left : Bool) (hd : d.WF)
     (h : d.interchange i j left = .ok d') : d'.WF ∧ d'.dom = d.dom ∧ d'.cod = d.cod :=
   Diagram.interchange_wf hd h
+
+/-- Every diagram yielded by `foliate` (rewriting.py:155-255) is well-typed with the input's
+    domain, codomain and boxes, and every slice it returns is well-typed. -/
+theorem foliate_wf (d : Diagram) (steps slices : List Diagram) (hd : d.WF)
+    (h : d.foliate = .ok (steps, slices)) :
+    (∀ s ∈ steps, s.WF ∧ s.dom = d.dom ∧ s.cod = d.cod ∧ s.boxes.Perm d.boxes) ∧
+    (∀ s ∈ slices, s.WF) :=
+  let r := Diagram.foliate_reach hd h
+  ⟨fun s hs => (r.1 s hs).wf hd, r.2⟩
 
 /-- Every step yielded by one `normalize` pass is well-typed with the input's type. -/
 theorem normalize_steps_wf (left : Bool) (d d' : Diagram) (steps : List Diagram) (hd : d.WF)
